@@ -269,7 +269,7 @@ DRIVERS["C03"] = C03
 # ---------------------------------------------------------------------------
 # C18: crash at every container access / callback of an update, then recover
 # ---------------------------------------------------------------------------
-from ..containers import _Ctx, InjectedFault, SimStall
+from ..containers import _Ctx, InjectedFault, SimStall, FAULT_NAMES
 from .model import model_step, ModelReject
 
 
@@ -380,7 +380,7 @@ class C18:
                         sub = replay_prefix(xd, spec, cfg, ops, ci)
                         before = O.snapshot(sub.world)
                         where = "op %d (%s %s) with fault %s#%d" % (ci, op[0], path_str(op[1]), kind, k)
-                        etype = ("plain", "zerodiv", "key", "value", "type", "os", "index")[(k + ci + len(kind)) % 7]
+                        etype = FAULT_NAMES[(k + ci + len(kind)) % len(FAULT_NAMES)]
                         count("fault_type:" + etype)
                         fst = sub.step(op, fault={"kind": kind, "n": k, "fired": False, "tag": k, "exc": etype})
                         nfaults += 1
@@ -391,7 +391,7 @@ class C18:
                         if case.get("double") and len(ks) > 1:
                             k2 = ks[(ks.index(k) * 7 + 3) % len(ks)]
                             tr, exc = run_traced(lambda: sub.world.apply(op), {"kind": kind, "n": k2, "fired": False, "tag": k2,
-                                                                                 "exc": ("zerodiv", "plain", "key", "index")[k2 % 4]})
+                                                                                 "exc": ("zerodiv", "plain", "key", "index", "stop", "attr")[k2 % 6]})
                             nfaults += 1
                             count("fault:second_in_a_row")
                             fst2 = type(fst)()
